@@ -13,13 +13,13 @@ for k in sorted(mr):
     v = mr[k]
     verd = ", ".join(f"{c}: {x}" for c, x in sorted(v["checks"].items()))
     note = v.get("note", "")
-    is_equiv = note.upper().startswith("EQUIVALENT") or "sanity" in note.lower() or "allowed" in note.lower()
+    is_equiv = note.upper().startswith("EQUIVALENT") or note.upper().startswith("OUTSIDE") or note.lower().startswith("needle") or "sanity" in note.lower() or "allowed" in note.lower()
     anyc = any(x == "CAUGHT" for x in v["checks"].values())
     if is_equiv: equiv += 1
     elif anyc: caught += 1
     else: missed += 1
     rows.append(f"| `{k}` | {v.get('file','').replace('src/','')} | {note or '-'} | {verd} |")
-summary = f"{caught} non-equivalent mutants caught by at least one of their checks, {missed} missed, {equiv} equivalent / allowed-by-the-property mutants (none of which may be reported).\n\n"
+summary = f"{caught} non-equivalent mutants caught by at least one of their checks, {missed} missed, {equiv} equivalent / allowed-by-the-property / outside-the-properties / needle mutants (the equivalent ones must not be reported).\n\n"
 mt = summary + "\n".join(rows) + "\n"
 # --- seed table
 rows = ["| seed | property | confirmed (demo passes without / suite passes with / demo fails with) | checks run against it | note |", "|---|---|---|---|---|"]
